@@ -52,12 +52,12 @@ def main():
             print("patch does not apply:\n" + o)
             return finish(dst, meta, ran, {})
         # demo files: test files in OUT are placed where the worktree has them
+        # demo files = untracked .go files the agent left in its worktree (outside OUT/)
         demos = []
-        for f in os.listdir(out):
-            if f.endswith(".go"):
-                rc, o = sh(["bash", "-c", "find . -name %s -not -path './OUT/*'" % f], cwd=wt)
-                for rel in o.split():
-                    demos.append((os.path.join(out, f), rel))
+        rc, o = sh(["git", "status", "--porcelain", "--untracked-files=all"], cwd=wt)
+        for ln in o.splitlines():
+            if ln.startswith("?? ") and ln.endswith(".go") and not ln[3:].startswith("OUT/"):
+                demos.append((os.path.join(wt, ln[3:]), ln[3:]))
         ran["demo_files"] = [d[1] for d in demos]
         if not noconfirm:
             for src, rel in demos:
